@@ -219,10 +219,10 @@ def bounded(b):
     case = {"score_edited_after_construction": "score[1] = another part"}
     ok, _ = b.guard("merge/no_exception", case, lambda: sco.__setitem__(1, pc))
     if ok:
+        want = sorted((Fraction(n.start.t, p._quarter_durations[0]), n.midi_pitch) for p in (pa, pc) for n in p.notes_tied)  # before merging (merge_parts is documented to rescale its inputs)
         ok, res = b.guard("merge/no_exception", case, lambda: (sco.note_array(), sc.merge_parts(sco)))
         if ok:
             na, mg = res
-            want = sorted((Fraction(n.start.t, p._quarter_durations[0]), n.midi_pitch) for p in (pa, pc) for n in p.notes_tied)
             got_na = sorted((Fraction(float(r["onset_quarter"])).limit_denominator(64), int(r["pitch"])) for r in na)
             got_mg = sorted((Fraction(n.start.t, mg._quarter_durations[0]), n.midi_pitch) for n in mg.notes_tied)
             b.case("merge/sounding_notes_equal_the_score_level_note_array", got_na == want and got_mg == want, case,
